@@ -1094,7 +1094,7 @@ class Data(BaseCartesianData):
         else:
             component_id = ComponentID(label, parent=self)
 
-        if len(self._components) == 0:
+        if len(self._components) == 0 and not isinstance(component, CoordinateComponent):
             # TODO: make sure the following doesn't raise a componentsraised message
             self._create_pixel_and_world_components(ndim=component.ndim)
 
@@ -1647,7 +1647,8 @@ class Data(BaseCartesianData):
         # Update data label
         self.label = data.label
 
-        if ndim_changed and len(self.components) > 0:
+        # (if no component was kept, adding the first new one has created them)
+        if ndim_changed and len(self.components) > 0 and len(self._pixel_component_ids) == 0:
             self._update_pixel_components(self.ndim)
 
         # Update data coordinates
